@@ -143,6 +143,8 @@ func main() {
 		cmdRun(os.Args[2:])
 	case "params":
 		cmdParams(os.Args[2:])
+	case "firstuse":
+		cmdFirstUse()
 	case "ops":
 		names := []string{}
 		for k := range ops {
